@@ -829,6 +829,19 @@ pub fn run_c06(tier: Tier) -> i32 {
                         faults.push(("malformed", vec![0x04, 0x0c, 0x02, 0x06, 0x82]));
                         faults.push(("malformed", vec![0x04, 0x0c, 0x05, 0x06, 0x03, 0x2d, 0x05, 0x1d]));
                     }
+                    if pos >= 1 {
+                        // well-formed data requests for files that were not announced: ids below, between and above the
+                        // announced ones (recognised ids that are absent, and ids no file has)
+                        let t2 = crate::table();
+                        for id in [0x00u8, 0x0f, 0x10, 0x11, 0x12, 0x13, 0x14, 0x15, 0x1a, 0x1f, 0x20, 0x21, 0x22, 0x27, 0x2a, 0x30, 0x33, 0x35, 0x36, 0x99, 0xff] {
+                            if ids.contains(&id) {
+                                continue;
+                            }
+                            for off in [0u32, 300] {
+                                faults.push(("unannounced-id", crate::props::c11::request_bytes(&t2, &Req { id, offset: off, malformed: String::new() })));
+                            }
+                        }
+                    }
                     for (kind, fb) in faults {
                         st.case(pos >= 2, fnv(&serde_json::to_vec(&(&c, pos, kind, &fb)).unwrap()));
                         st.class(&format!("upload:{kind}@{}", if pos == 0 { "ack" } else { "request" }));
@@ -875,7 +888,7 @@ pub fn run_c06(tier: Tier) -> i32 {
     ctx.finish(
         stats,
         "17 Sequence impls (and the firmware upload stream with 0..3 good data requests) x valid script prefixes x one fault {NACK 84 xx, packet outside the reply set, undecodable body inside the reply set, truncated packet + end of stream, end of stream} at the acknowledgement position or instead of reply j, a read error (connection reset / aborted / broken pipe / timed out / other) at a packet boundary or inside a packet, and the connection lost for writing (BrokenPipe) at the command and at every acknowledgement incl. the one of the final packet; exhaustive over prefixes up to the stated depth, then proptest prefixes up to 8 replies with random bodies. Oracle: Ok items for the replies before the fault, exactly one Err, then None twice without I/O, and no byte written once the faulty bytes were released. non-trivial = fault behind at least one acknowledged reply (position >= 2); distinct by (sequence, prefix bytes, fault)",
-        &["'malformed' bodies are used only when both the reference decoder and the packet's own decoder reject them", "for the upload stream the faults are placed behind 0..3 answered data requests (props/c11.rs check_upload_fault)"],
+        &["'malformed' bodies are used only when both the reference decoder and the packet's own decoder reject them", "for the upload stream the faults - among them well-formed requests for ids that were not announced, below / between / above the announced ones - are placed behind 0..3 answered data requests (props/c11.rs check_upload_fault)"],
         false,
     )
 }
